@@ -179,6 +179,10 @@ def _families(names, seed, tier):
             specs += CP.family_packages()
         elif n == 'frontend':
             specs += CP.family_frontend()
+        elif n == 'random_reject':
+            specs += CP.family_random_reject(seed, 45 if tier == 'quick' else 300)
+        elif n == 'random':
+            specs += CP.family_random(seed, 60 if tier == 'quick' else 400)
     return specs
 
 
@@ -447,3 +451,10 @@ for _t in ('quick', 'thorough'):
     PROPS['C20'][_t] = PROPS['C20'][_t] + [tspec('H_load_vars')]
     PROPS['C19'][_t] = PROPS['C19'][_t] + [tspec('H_load_vars')]
 PROPS['C20']['covers']['H_load_vars'] = ['vars-accepted', 'vars-rejected']
+
+for _p in ('C01', 'C02', 'C03', 'C04', 'C10', 'C11', 'C12'):
+    for _t in ('quick', 'thorough'):
+        PROPS[_p][_t] = PROPS[_p][_t] + [sideb(['random'])]
+for _p in ('C05', 'C06', 'C08'):
+    for _t in ('quick', 'thorough'):
+        PROPS[_p][_t] = PROPS[_p][_t] + [sideb(['random_reject'])]
